@@ -139,15 +139,47 @@ class Gen:
                 self.tag(","); self.w(","); self.param()
             self.tag("."); self.w(")")
 
+    def mname(self):
+        if self.r.chance(1, 6):
+            self.count("event-name")
+            self.tag("V"); self.w(self.name()); self.w("#"); self.w(self.name())
+        else:
+            self.tag("N"); self.w(self.name())
+
+    def mods(self):
+        """modifiers; returns whether the method has a body"""
+        self.tag("{")
+        body = True
+        for _ in range(self.r.choice([0, 0, 0, 1, 1, 2, 3])):
+            c = self.r.below(7)
+            if c == 5:
+                self.count("forward")
+                self.tag("M"); self.w("forward"); body = False
+            elif c == 6:
+                self.count("external")
+                self.tag("X"); self.w("external"); self.w(self.r.choice(["'user32.dll'", "'a b'"])); body = False
+            else:
+                self.count("modifier")
+                self.tag("M"); self.w(["private", "protected", "final", "override", "override"][c])
+        self.tag("}")
+        return body
+
+    def body(self, has, depth, end):
+        if has:
+            self.tag("+"); self.stmts(depth); self.w(end)
+        else:
+            self.count("no-body")
+            self.tag("-")
+
     def decl(self, depth):
         c = self.r.below(8)
         if c <= 2:
             self.count("proc")
-            self.tag("DP"); self.w("proc"); self.w(self.name()); self.params(); self.stmts(depth); self.w("endproc")
+            self.tag("DP"); self.w("proc"); self.mname(); self.params(); self.body(self.mods(), depth, "endproc")
         elif c <= 4:
             self.count("func")
-            self.tag("DF"); self.w("func"); self.w(self.name()); self.params(); self.w("return"); self.w(self.r.choice(TYPES))
-            self.stmts(depth); self.w("endfunc")
+            self.tag("DF"); self.w("func"); self.mname(); self.params(); self.w("return"); self.w(self.r.choice(TYPES))
+            self.body(self.mods(), depth, "endfunc")
         elif c == 5:
             self.count("const")
             self.tag("DC"); self.w("const"); self.w(self.r.choice(NAMES)); self.w("="); self.w(self.r.choice(["12", "3.5", "'s t'", "''"]))
